@@ -119,15 +119,19 @@ pub broadcast axiom fn axiom_value_algebra(f: f64, b: bool)
 pub assume_specification<T> [Option::<T>::or] (a: Option<T>, b: Option<T>) -> (r: Option<T>)
   ensures r == (if a is Some { a } else { b });
 
+pub assume_specification<T, U, F: FnOnce(T) -> U> [Option::<T>::map_or] (o: Option<T>, default: U, f: F) -> (r: U)
+  requires o is Some ==> f.requires((o->0,)),
+  ensures o is None ==> r == default, o is Some ==> f.ensures((o->0,), r);
+
 // ---- the fiber's operand stack (A-fiber): the real Fiber keeps a raw stack_top pointer into a Vec; its
 // push/pop/peek/peek_set/drop/drop_n are modelled as a Vec, with the depth precondition the real code leaves unchecked
-#[verifier::external_body]
-#[derive(Clone, Copy)]
-pub struct ClassRef { p: usize }      // ObjRef<Class>
+/// a GC pointer: equality is identity
+#[derive(Clone, Copy, PartialEq, Eq, Structural)]
+pub struct ClassRef { pub p: usize }      // ObjRef<Class>
 
-#[verifier::external_body]
-#[derive(Clone, Copy)]
-pub struct InstRef { p: usize }       // Instance
+/// a GC pointer: equality is identity
+#[derive(Clone, Copy, PartialEq, Eq, Structural)]
+pub struct InstRef { pub p: usize }       // Instance
 
 /// A-heap: the class graph as the handlers observe it
 pub uninterp spec fn subclass(a: ClassRef, b: ClassRef) -> bool;     // a.is_subclass(b): a == b or a inherits from b
@@ -164,9 +168,9 @@ pub uninterp spec fn from_method(receiver: Value, method: Value) -> Value;     /
 pub uninterp spec fn o_method_receiver(o: ObjectRef) -> Value;
 pub uninterp spec fn o_method_fn(o: ObjectRef) -> Value;
 
-#[verifier::external_body]
-#[derive(Clone, Copy)]
-pub struct MethodRef { p: usize }     // ObjRef<Method>
+/// a GC pointer: equality is identity
+#[derive(Clone, Copy, PartialEq, Eq, Structural)]
+pub struct MethodRef { pub p: usize }     // ObjRef<Method>
 pub uninterp spec fn m_receiver(m: MethodRef) -> Value;
 pub uninterp spec fn m_method(m: MethodRef) -> Value;
 impl MethodRef {
@@ -181,7 +185,10 @@ impl IntoValue for MethodRef {
 pub struct Method { pub receiver: Value, pub method: Value }
 impl Method { pub fn new(receiver: Value, method: Value) -> (r: Self) ensures r.receiver == receiver, r.method == method { Method { receiver, method } } }
 
+/// the class a class inherits from, if any
+pub uninterp spec fn parent_of(c: ClassRef) -> Option<ClassRef>;
 impl ClassRef {
+  #[verifier::external_body] pub fn super_class(&self) -> (r: Option<ClassRef>) ensures r == parent_of(*self) { None }
   #[verifier::external_body] pub fn get_field_index(&self, name: &LyStr) -> (r: Option<u16>) ensures r == field_index(*self, *name) { None }
   #[verifier::external_body] pub fn get_method(&self, name: &LyStr) -> (r: Option<Value>) ensures r == method_of(*self, *name) { None }
   #[verifier::external_body] pub fn name(&self) -> (r: LyStr) { LyStr { p: 0 } }
@@ -207,9 +214,9 @@ pub struct Handler { pub offset: int, pub depth: int }
 #[derive(Clone, Copy, PartialEq, Eq, Structural)]
 pub enum FState { Running, Pending, Blocked }
 
-#[verifier::external_body]
-#[derive(Clone, Copy)]
-pub struct WaiterRef { p: usize }     // Ref<ChannelWaiter>
+/// a GC pointer: equality is identity
+#[derive(Clone, Copy, PartialEq, Eq, Structural)]
+pub struct WaiterRef { pub p: usize }     // Ref<ChannelWaiter>
 
 pub struct Fiber {
   pub stack: Vec<Value>,
@@ -325,9 +332,9 @@ impl Fiber {
 }
 
 // ---- channels as the handlers see them: the queue itself is verified in the chanq unit (C07) -------------------
-#[verifier::external_body]
-#[derive(Clone, Copy)]
-pub struct ChanRef { p: usize }       // ObjRef<Channel>
+/// a GC pointer: equality is identity
+#[derive(Clone, Copy, PartialEq, Eq, Structural)]
+pub struct ChanRef { pub p: usize }       // ObjRef<Channel>
 
 /// the answer the channel gives to this send / receive in the current heap (its contract is chanq's)
 pub uninterp spec fn send_answer(c: ChanRef, w: WaiterRef, v: Value) -> SendResult;
